@@ -248,6 +248,12 @@ def extra(uni, tier, seed):
                      kind="bounded run-time contract: 9 capitalisation "
                           "combinations of declaration and code-block use",
                      count=n_ok, bounded=True))
+    # chain: a renamed symbol stays declared under the name the code uses
+    # only if SymbolTable.rename_symbol refuses names that code blocks use
+    # and keeps the table's key/name invariant (contract of C16)
+    from pyvc.chain import chain_extras
+    from contracts import C16
+    out += chain_extras(uni, C16, "SymbolTable.rename_symbol", C16.replay)
     return out
 
 
